@@ -11,12 +11,13 @@ Expressions (tuples):
   ('call', f, [args])  ('tid', 'name', 'template args text')  ('member', obj, name)  ('index', obj, i)
   ('un', op, e)  ('bin', op, a, b)  ('assign', op, a, b)  ('cond', c, a, b)  ('incdec', op, e)
   ('cast', type, e)  ('new', type, [args])  ('delete', e)  ('throw', e)  ('lambda', [params], body)
-  ('comma', a, b)  ('initlist', [items])
+  ('comma', a, b)  ('initlist', [items])  ('sizeof_t', type)  ('sizeof_e', e)
 Statements:
   ('block', [s])  ('if', c, a, b|None)  ('for', init|None, cond|None, step|None, body)
   ('rangefor', name, container, body)  ('while', c, body)  ('dowhile', body, c)
   ('switch', e, [([labels], [stmts])])   label = expr | 'default'
   ('return', e|None)  ('break',)  ('continue',)  ('decl', type, name, init|None)  ('expr', e)  ('empty',)
+  ('arraydecl', element type, name, size|None, [items], is-constant, is-std-array)  ('sassert', e)
 """
 import re
 
@@ -174,6 +175,7 @@ class Func:
         self.body = None        # token list (without the braces)
         self.file = ""
         self.template = False
+        self.tparams = None     # names of the template parameters if all of them are plain type parameters, else None
 
     def __repr__(self):
         return "<Func %s%s in %s>" % ((self.cls + "::") if self.cls else "", self.name, self.file)
@@ -191,8 +193,10 @@ class Index:
         self.funcs = []
         self.classes = {}       # name -> {'members': [Member], 'bases': tokens, 'file': f}
         self.enums = {}         # name -> [(enumerator, value)]
+        self.enum_base = {}     # name -> text of the explicit underlying type ('' if none)
         self.aliases = {}       # (cls|None, name) -> type tokens
         self.consts = {}        # (cls|None, name) -> (init tokens, file)
+        self.arrays = {}        # (cls|None, name) -> (element type tokens, size tokens|None) for constant arrays in consts
         self.files = []
 
     # ---- building
@@ -247,10 +251,20 @@ class Index:
             # template prefix
             h = head
             template = False
+            tparams = []
             while h and is_id(h[0], "template") and len(h) > 1 and is_p(h[1], "<"):
                 k = match_angle(h, 1)
                 if k < 0:
                     raise TranslateError("%s: template header not understood" % rel)
+                if template:
+                    tparams = None          # member of a class template: two headers, not followed
+                if tparams is not None:
+                    for part in split_top(h[2:k]):
+                        if len(part) == 2 and is_id(part[0]) and part[0][1] in ("typename", "class") and is_id(part[1]):
+                            tparams.append(part[1][1])
+                        else:
+                            tparams = None  # non-type / defaulted / variadic parameter
+                            break
                 h = h[k + 1:]
                 template = True
             if h and is_id(h[0], "namespace"):
@@ -299,6 +313,7 @@ class Index:
                 body_close = match_close(toks, body_open, rel)
                 f.body = toks[body_open + 1:body_close]
                 f.template = template
+                f.tparams = tparams if template else None
                 self.funcs.append(f)
                 i = body_close + 1
                 continue
@@ -343,6 +358,12 @@ class Index:
         if not vals:
             raise TranslateError("enum %s: empty" % name)
         self.enums[name] = vals
+        base = []
+        for k, x in enumerate(head):
+            if is_p(x, ":"):
+                base = head[k + 1:]
+                break
+        self.enum_base[name] = text_of(base)
 
     def _simple_decl(self, head, cls, rel):
         """declaration without body: alias, constant, data member, static member definition (function
@@ -387,6 +408,16 @@ class Index:
                 break
             k += 1
         del depth_scan
+        # `T name[ N] = { … }` / `T name[] = { … }`: a constant table
+        array_size = None
+        if decl and is_p(decl[-1], "]"):
+            k = len(decl) - 1
+            while k >= 0 and not is_p(decl[k], "["):
+                k -= 1
+            if k < 1 or match_close(decl, k) != len(decl) - 1 or is_p(decl[k - 1], "]"):
+                return
+            array_size = decl[k + 1:-1]
+            decl = decl[:k]
         if not decl or not is_id(decl[-1]) or is_id(decl[-1], "operator"):
             return
         # a function declaration has a top-level `(` outside template brackets
@@ -420,6 +451,27 @@ class Index:
         specs = {x[1] for x in tt if x[0] == "id" and x[1] in DECL_SPEC}
         type_toks = [x for x in tt if not (x[0] == "id" and x[1] in ("static", "inline", "constexpr", "mutable", "extern", "thread_local"))]
         if not type_toks:
+            return
+        std_array = array_size is None and len(type_toks) > 3 and text_of([x for x in type_toks if not is_id(x, "const")][:4]) == "std :: array <"
+        if array_size is not None or std_array:
+            # object constness: constexpr, or `const` that is not the pointee's (`const char* const t[]`, `const int t[]`)
+            stars = [k for k, x in enumerate(type_toks) if is_p(x, "*")]
+            obj_const = "constexpr" in specs or any(is_id(x, "const") for x in (type_toks[stars[-1]:] if stars else type_toks))
+            if init is None or not obj_const:
+                return                  # a mutable or uninitialised array is not a constant; uses of it stay unknown names
+            if std_array:
+                tt2 = [x for x in type_toks if not is_id(x, "const")]
+                close = match_angle(tt2, 3)
+                parts = split_top(tt2[4:close]) if close == len(tt2) - 1 else []
+                if len(parts) != 2:
+                    return
+                elem, array_size = parts[0], parts[1]
+            else:
+                elem = type_toks
+            if is_p(init[0], "{") and match_close(init, 0) == len(init) - 1:
+                init = init[1:-1]
+            self.consts[(cls, name)] = (init, rel)
+            self.arrays[(cls, name)] = (elem, array_size if array_size else None, std_array)
             return
         if init is not None and ("constexpr" in specs or ("const" in specs and not any(is_p(x, "*") for x in type_toks))):
             self.consts[(cls, name)] = (init, rel)
@@ -618,6 +670,8 @@ KEYWORDS = {"if", "else", "for", "while", "do", "switch", "case", "default", "re
 BIN_PREC = [("||",), ("&&",), ("|",), ("^",), ("&",), ("==", "!="), ("<", "<=", ">", ">="), ("<<", ">>"), ("+", "-"),
             ("*", "/", "%")]
 ASSIGN_OPS = {"=", "+=", "-=", "*=", "/=", "%=", "<<=", ">>=", "&=", "|=", "^="}
+# std:: names that are functions, not types (a call with one argument is not a functional cast)
+STD_FUNCS = {"std::size", "std::ssize", "std::begin", "std::end", "std::cbegin", "std::cend", "std::data"}
 
 
 class Parser:
@@ -654,6 +708,7 @@ class Parser:
         save = self.i
         words = []
         seen_core = False
+        self.last_specs = set()
         while True:
             t = self.peek()
             if t is None:
@@ -661,6 +716,8 @@ class Parser:
             if t[0] == "id" and t[1] in ("const", "volatile", "constexpr", "static", "typename", "mutable"):
                 if t[1] in ("const", "volatile"):
                     words.append(t[1])
+                else:
+                    self.last_specs.add(t[1])
                 self.i += 1
                 continue
             if t[0] == "id" and t[1] in ("struct", "class", "enum") and not seen_core:
@@ -781,6 +838,17 @@ class Parser:
                 return ("continue",)
             if k in ("try", "goto", "catch", "asm"):
                 self.err("`%s` is not supported" % k)
+            if k == "static_assert" and self.at_p("(", 1):
+                # no run-time meaning; the condition is kept (if it is in the expression subset) so that the
+                # normaliser can evaluate it: a false one means that the code does not compile
+                j = match_close(self.t, self.i + 1, self.what)
+                parts = split_top(self.t[self.i + 2:j])
+                self.i = j + 1
+                self.eat_p(";")
+                try:
+                    return ("sassert", Parser(parts[0], self.what, self.type_names).full_expr())
+                except (TranslateError, IndexError):
+                    return ("empty",)
             if k in ("using", "typedef", "static_assert"):
                 while not self.at_p(";"):
                     self.i += 1
@@ -822,13 +890,16 @@ class Parser:
         if not (nxt is not None and nxt[0] == "p" and nxt[1] in ("=", "(", "{", ";", ":", "[")):
             self.i = save
             return None
-        if is_p(nxt, "[") or in_cond:
-            if in_cond:
-                self.i = save
-                return ("decl",)
-            self.err("array declaration is not supported")
+        if in_cond:
+            self.i = save
+            return ("decl",)
+        specs = set(self.last_specs)
+        if is_p(nxt, "["):
+            return self.array_decl(ty, t[1], specs)
         name = t[1]
         self.i += 1
+        if ty.replace("const ", "").startswith("std::array<") and (self.at_p("=") or self.at_p("{")):
+            return self.std_array_decl(ty, name, specs)
         if self.at_p(":"):
             self.i = save
             return None            # range-for header, handled by for_stmt
@@ -849,6 +920,43 @@ class Parser:
             self.err("several declarators in one declaration are not supported")
         self.eat_p(";")
         return ("decl", ty, name, init)
+
+    def array_decl(self, ty, name, specs):
+        """`T name[ N] = { … };` / `T name[] = { … };` / `T name[ N]{ … };`  ->
+        ('arraydecl', element type, name, size expression|None, [items], is-constant, False)"""
+        self.i += 1
+        j = match_close(self.t, self.i, self.what)
+        size = Parser(self.t[self.i + 1:j], self.what, self.type_names).full_expr() if j > self.i + 1 else None
+        self.i = j + 1
+        if self.at_p("["):
+            self.err("array with more than one dimension is not supported")
+        if self.at_p("="):
+            self.i += 1
+        if not self.at_p("{"):
+            self.err("array without a brace initialiser is not supported")
+        init = self.primary()
+        self.eat_p(";")
+        words = ty.split()
+        stars = [k for k, w in enumerate(words) if w == "*"]
+        obj_const = "constexpr" in specs or "const" in (words[stars[-1]:] if stars else words)
+        return ("arraydecl", ty, name, size, init[1], obj_const, False)
+
+    def std_array_decl(self, ty, name, specs):
+        """`std::array< T, N> name = { … };` (also `{{ … }}` and without `=`)"""
+        core = ty.replace("const ", "")
+        inner = lex(core[len("std::array<"):core.rindex(">")], self.what)
+        parts = split_top(inner)
+        if len(parts) != 2 or not core.endswith(">"):
+            self.err("std::array type not understood")
+        size = Parser(parts[1], self.what, self.type_names).full_expr()
+        if self.at_p("="):
+            self.i += 1
+        if not self.at_p("{"):
+            self.err("std::array without a brace initialiser is not supported")
+        init = self.primary()
+        self.eat_p(";")
+        obj_const = "constexpr" in specs or ty.split()[0] == "const" or ty.split()[-1] == "const"
+        return ("arraydecl", text_of(parts[0]), name, size, init[1], obj_const, True)
 
     def for_stmt(self):
         self.i += 1
@@ -967,7 +1075,17 @@ class Parser:
             self.i += 1
             return ("incdec", t[1], self.unary())
         if is_id(t, "sizeof"):
-            self.err("sizeof is not supported")
+            self.i += 1
+            if self.at_p("..."):
+                self.err("sizeof... is not supported")
+            if self.at_p("("):
+                j = match_close(self.t, self.i, self.what)
+                sub = Parser(self.t[self.i + 1:j], self.what, self.type_names)
+                ty = sub.try_type()
+                if ty is not None and sub.done() and self._is_type_name(ty):
+                    self.i = j + 1
+                    return ("sizeof_t", ty)
+            return ("sizeof_e", self.unary())
         if is_id(t, "new"):
             self.i += 1
             if self.at_p("("):
@@ -1017,7 +1135,7 @@ class Parser:
                 return e
             if t[1] == "(":
                 args = self.call_args()
-                if e[0] == "id" and self._is_type_name(e[1]) and len(args) == 1:
+                if e[0] == "id" and self._is_type_name(e[1]) and len(args) == 1 and e[1] not in STD_FUNCS:
                     e = ("cast", e[1], args[0])          # functional cast
                 else:
                     e = ("call", e, args)
